@@ -26,6 +26,27 @@ C['C07']=dict(engine="xplore", design="DESIGN.md §6 C07",
   technique="explicit-state model checking of arrival-order/action/scan histories on the real AggregationProcess under a virtual clock, against a correlation reference model; BFS to closure",
   text="Every history up to depth 4 (thorough 5) over records of one flow key with every flow type, 6 (thorough: all 16) egress/ingress action pairs and either reporting node, clock steps and scans, for MaxRetries 1 and 2: ready/filled flags, retry counter, deadlines and every correlated field of the merged record are compared with the model after each step, and no callback may ever see an unready record. BFS on the snapshot closes the graph (269 states for MaxRetries=1).",
   note="Trusted: correlation model (DESIGN Appendix B.3). A record that shows the flow needs no correlation makes a held flow ready (this is the reading under which the repaired defect was a defect).")
+
+C['C08']=dict(engine="xplore", design="DESIGN.md §6 C08",
+  technique="bounded-exhaustive enumeration of successful send histories on the real ExportingProcess (in-memory connection, virtual clock), every transmitted message parsed by an independent decoder and compared with a session model",
+  text="Every history of successful template/data sends (record counts 1,2,3 and the largest that fits) and clock steps up to depth 5 (thorough 7), from start counters 0, 2^31, 2^32-3, 2^32-1 and three virtual clocks, over tcp and udp: sequence number (mod 2^32), domain, export second, exactly one write per send and the exact byte count are checked on every message.",
+  note="Trusted: refcodec, session model. Background goroutines are parked (their interaction is C14). Export time is compared modulo 2^32.")
+C['C09']=dict(engine="xplore", design="DESIGN.md §6 C09",
+  technique="bounded-exhaustive enumeration of send histories mixing valid sends with every fault kind and every message size around the limit, on the real ExportingProcess with a fault-injecting in-memory connection",
+  text="Every history up to depth 3 (thorough 4) over valid sends and faults (unknown template id, field count off by one in first/later records, undefined set type, failing connection write, ill-typed address/MAC values), and every message size 65519..65540: an error must leave the connection log untouched, a success must put exactly the supplied values on the wire, and a data set may only follow a template that actually reached the wire.",
+  note="Trusted: refcodec. IPv4-in-ipv6Address (encodable as v4-mapped) is left open by the statement and not in the alphabet.")
+C['C10']=dict(engine="vsched", design="DESIGN.md §6 C10",
+  technique="history enumeration x exhaustive schedule exploration (controlled scheduler, virtual timers) of the real UDP collector; invariant evaluated at every scheduling point",
+  text="For every history (depth 4, thorough 5) over template / replacement / bad template / data / clock advances, all placements of timer firings and expiry-callback executions relative to the driver are explored (3 preemptions quick, unbounded thorough): data is accepted for the whole TTL after the last refresh, rejected when no template is in force, stored <=> alive at quiescence, and whenever the collector's lock is free every stored template has an armed timer or a callback in flight and no removed template keeps an armed timer.",
+  note="Trusted: vsched timer model (documented Stop/Reset semantics, callback in its own thread), verifgen rewrite. 2 ids x 1-2 domains.")
+C['C13']=dict(engine="vsched", design="DESIGN.md §6 C13",
+  technique="exhaustive schedule exploration (controlled scheduler) of 3-4 thread scenarios on the real AggregationProcess + brute-force linearizability check against the implementation run sequentially + in-model happens-before race detection",
+  text="All interleavings (unbounded for the direct-call scenarios; preemption-bounded for the built-in worker pool) of concurrent ingestion, expiry scans and queries: per-operation results and the final map/heap snapshot must be explained by a sequential order consistent with real time; the final heap/map structure must be intact; every instrumented field access is checked for data races in every explored schedule.",
+  note="Trusted: vsched lock/channel model, verifgen field instrumentation. N<=4 threads (the statement's N up to 16 is not enumerable).")
+C['C14']=dict(engine="vsched", design="DESIGN.md §6 C14",
+  technique="exhaustive schedule exploration up to a preemption bound of application / clock / peer / Close threads against the exporter's own background goroutines on an in-memory connection; log oracle + deadlock, leak, crash and in-model data-race detection",
+  text="Five scenarios (UDP refresh vs application, two refreshes, concurrent Close calls, TCP peer close noticed by the connection check, checker-initiated close racing Close) explored to 2 (thorough 3) preemptions: every write is one whole well-formed message, refreshes retransmit all templates sent before the tick, sends fail after a noticed peer close, Close always returns, leaves no thread and no later write, and no field access races.",
+  note="Trusted: vsched/vnet models. Background goroutines are allowed to start before the scenario begins (a start delayed by a whole refresh interval is not considered). A Close overlapping another Close still in progress may return before the connection is closed (left open by the statement).")
 checks=[]
 for pid in sorted(C):
     c=C[pid]
